@@ -147,6 +147,26 @@ theorem sync_before_events_and_schedules (h : Hook) (sc : List Bool) :
                   · exact ih _ hlen _ he
         exact this _ h.kube (Nat.le_refl _) sc hmem
 
+/-- what `deliveredSpec` says, spelled out: a binding that must be skipped never appears; an
+ungrouped deliverable binding appears -/
+theorem deliveredSpec_mem (d : KBinding → Bool) : (bs : List KBinding) → ∀ c ∈ deliveredSpec d bs,
+    ∃ b ∈ bs, c = ctxOf b ∧ d b = true
+  | [], c, h => by simp [deliveredSpec] at h
+  | [b], c, h => by
+    by_cases hb : d b <;> simp [deliveredSpec, hb] at h
+    exact ⟨b, List.mem_cons_self .., h, hb⟩
+  | b :: b' :: bs, c, h => by
+    have ih := deliveredSpec_mem d (b' :: bs) c
+    simp only [deliveredSpec] at h
+    split at h
+    · rename_i hb
+      split at h
+      · obtain ⟨x, hx, hc⟩ := ih h; exact ⟨x, List.mem_cons_of_mem _ hx, hc⟩
+      · rcases List.mem_cons.mp h with rfl | h
+        · exact ⟨b, List.mem_cons_self .., rfl, hb⟩
+        · obtain ⟨x, hx, hc⟩ := ih h; exact ⟨x, List.mem_cons_of_mem _ hx, hc⟩
+    · obtain ⟨x, hx, hc⟩ := ih h; exact ⟨x, List.mem_cons_of_mem _ hx, hc⟩
+
 /-- **C06.3 `sync_once_or_skipped`.** What a hook receives as Synchronization, for every hook, every
 failure script: the contexts of its successful executions are exactly `deliveredSpec` — one context
 per binding with configVersion v1 and executeHookOnSynchronization true (an ungrouped binding its own
@@ -173,25 +193,54 @@ theorem sync_once_or_skipped (h : Hook) (sc : List Bool) :
     rw [this.1, hnil] at hc
     simp at hc
 
-/-- what `deliveredSpec` says, spelled out: a binding that must be skipped never appears; an
-ungrouped deliverable binding appears -/
-theorem deliveredSpec_mem (d : KBinding → Bool) : (bs : List KBinding) → ∀ c ∈ deliveredSpec d bs,
-    ∃ b ∈ bs, c = ctxOf b ∧ d b = true
-  | [], c, h => by simp [deliveredSpec] at h
-  | [b], c, h => by
-    by_cases hb : d b <;> simp [deliveredSpec, hb] at h
-    exact ⟨b, List.mem_cons_self .., h, hb⟩
-  | b :: b' :: bs, c, h => by
-    have ih := deliveredSpec_mem d (b' :: bs) c
-    simp only [deliveredSpec] at h
-    split at h
-    · rename_i hb
-      split at h
-      · obtain ⟨x, hx, hc⟩ := ih h; exact ⟨x, List.mem_cons_of_mem _ hx, hc⟩
-      · rcases List.mem_cons.mp h with rfl | h
-        · exact ⟨b, List.mem_cons_self .., rfl, hb⟩
-        · obtain ⟨x, hx, hc⟩ := ih h; exact ⟨x, List.mem_cons_of_mem _ hx, hc⟩
-    · obtain ⟨x, hx, hc⟩ := ih h; exact ⟨x, List.mem_cons_of_mem _ hx, hc⟩
+/-- Whenever a run has emptied the queue it has reached *the* final state of `enable_order_alphabetical`
+(the driver runs `run` with the fuel `fuelBound` and reports the log only when the queue is empty). -/
+theorem run_is_final (hooks : List Hook) (fails : Nat → List Bool) (m : Nat)
+    (he : (runFuel stopFact hooks m (initSt hooks fails)).queue = []) :
+    ∀ k, m ≤ k → runFuel stopFact hooks k (initSt hooks fails) = runFuel stopFact hooks m (initSt hooks fails) := by
+  intro k hk
+  obtain ⟨d, rfl⟩ := Nat.exists_eq_add_of_le hk
+  rw [runFuel_add]
+  exact runFuel_nil stopFact hooks d _ he
+
+/-- **C06.1, second half.** In the final log every onStartup execution comes before every other hook
+execution: the log splits into a part whose executions carry only the context onStartup and a part
+whose executions carry only Synchronization/Group contexts. -/
+theorem startup_before_everything (hooks : List Hook) (hs : PathSorted hooks) (fails : Nat → List Bool) :
+    ∃ (n : Nat) (a b : List Ev), (∀ m, n ≤ m → (runFuel stopFact hooks m (initSt hooks fails)).log = a ++ b) ∧
+      (∀ c ∈ execCtxs a, c = .onStartup) ∧ (∀ c ∈ execCtxs b, c.isSync = true) := by
+  obtain ⟨n, fails₁, fails₂, hrun⟩ := run_total stopFact hooks hs fails
+  refine ⟨n, startupLog hooks fails, hooks.flatMap (fun h => hookPlan stopFact h (fails₁ h.name)),
+    fun m hm => by rw [hrun m hm], ?_, ?_⟩
+  · intro c hc
+    unfold startupLog at hc
+    generalize getHooksInOrder hooks = L at hc
+    induction L with
+    | nil => simp [execCtxs] at hc
+    | cons h L ih =>
+      rw [List.flatMap_cons, execCtxs_append] at hc
+      rcases List.mem_append.mp hc with hc | hc
+      · have := execCtxs_retryLog_mem _ _ c hc
+        simpa [startupTask] using this
+      · exact ih hc
+  · intro c hc
+    generalize hooks = L at hc
+    induction L with
+    | nil => simp [execCtxs] at hc
+    | cons h L ih =>
+      rw [List.flatMap_cons, execCtxs_append] at hc
+      rcases List.mem_append.mp hc with hc | hc
+      · -- the block of hook h: contexts of its Synchronization phase only
+        rw [hookPlan, execCtxs_append] at hc
+        rcases List.mem_append.mp hc with hc | hc
+        · by_cases hk : h.kube.isEmpty
+          · simp [hk, execCtxs] at hc
+          · simp only [hk, Bool.false_eq_true, if_false, execCtxs] at hc
+            have hd := (sync_once_or_skipped h (fails₁ h.name)).2.1 c hc
+            obtain ⟨b, _, hb, _⟩ := deliveredSpec_mem _ _ c hd
+            rw [hb]; rfl
+        · by_cases hsch : h.sched <;> simp [hsch, execCtxs] at hc
+      · exact ih hc
 
 /-! ### Non-vacuity and witnesses -/
 
